@@ -21,7 +21,8 @@ From CL Require Import Base.Sx Base.Res Base.Str Model.AddRemove Model.Channels
                        Proofs.ReparsePartial
                        Model.Entry Model.Parse Model.ParseFormats Proofs.C02Blocks
                        Proofs.MergeShape Proofs.PropsShape Proofs.MergeReparse15 Proofs.PropsView.
-From CL Require Proofs.C02BlocksDtd Proofs.DtdShape Proofs.DtdReparse.
+From CL Require Proofs.C02BlocksDtd Proofs.DtdShape Proofs.DtdReparse Proofs.DtdView.
+From CL Require Proofs.C02BlocksIni Proofs.IniShape Proofs.IniReparse Proofs.IniView.
 From Coq Require Import Lia.
 Import ListNotations.
 Local Open Scope nat_scope.
@@ -270,6 +271,13 @@ Theorem C15_reparse_dtd : forall m name (bss : list (list C02BlocksDtd.block)) t
     filter (is_kind KJunk) es = [].
 Proof. exact DtdReparse.merge_reparse_dtd. Qed.
 
+(* [dcentries_of bs] is the view of what the DTD parser yields for the text of the blocks *)
+Theorem C15_parse_view_dtd : forall bs, Forall C02BlocksDtd.legal_block bs -> DtdShape.no_pe bs ->
+  C02BlocksDtd.adjacent_ok bs ->
+  exists es, walk_dtd (C02BlocksDtd.file_text bs) = Ok es /\
+             map (DtdView.dview (C02BlocksDtd.file_text bs)) es = DtdShape.dcentries_of bs.
+Proof. exact DtdView.dcentries_view. Qed.
+
 (* newer  <!ENTITY a "1">\n<!ENTITY b "2">\n   older  <!ENTITY a "0">\n<!--c-->\n\n<!ENTITY z "3">\n *)
 Definition de (k v : list nat) : C02BlocksDtd.block :=
   C02BlocksDtd.BEntity None (A [32]) (A k) (A [32]) 34%N (A v) [].
@@ -302,3 +310,108 @@ Ltac dversion_ok_tac :=
 
 Example C15_example_dversion_ok : Forall (DtdReparse.dversion_ok 2) [d_new; d_old].
 Proof. constructor; [dversion_ok_tac|constructor; [dversion_ok_tac|constructor]]. Qed.
+
+(* ---- the re-parse clause for ini, from the block theorem of C02 (blocks_ini) ---------------------
+   Versions are legal ini block lists (Proofs/C02BlocksIni.v: section headers, entities
+   key=value with attached comment lines, standalone comments, blank runs); their entries are
+   [IniShape.icentries_of bs] — a section header is an entry of its own with the merge key
+   ("[section]", name) (dict key DS), the key of an entity is NOT qualified by its section.
+   [IniReparse.iversion_ok m bs]: legal blocks, no "License" in attached comments, [ukeys]
+   (keys distinct in the whole file, section names distinct), every entity / section header /
+   standalone comment directly followed by a whitespace entry (at least m long after a
+   comment), and every whitespace entry starts AND ends with a line break (and has a second
+   one from length m on, which follows for m >= 2).  "Ends with a line break" is what the
+   listed finding merge-ws-fold-loses-blank-line needs here: merge_two.prune keeps the longer
+   whitespace, which then must still put a following comment at the start of a line; it is
+   needed (C15_reparse_ini_line_end_refuted: the merged text has Junk).
+   Then the merged text re-parses (walk_ini) without junk; its entities (key, value), its
+   standalone comments and its section headers are exactly those of the merged entry list,
+   in that list's order. *)
+Theorem C15_reparse_ini : forall m name (bss : list (list C02BlocksIni.iblock)) txt,
+  Forall (IniReparse.iversion_ok m) bss ->
+  merge_channels name (map IniShape.icentries_of bss) = Ok txt ->
+  exists out es,
+    merge_entries (map IniShape.icentries_of bss) = Ok out /\ txt = concat (map c_text out) /\
+    walk_ini txt = Ok es /\
+    map (fun e => let r := C02BlocksIni.entity_record txt e in (fst (fst r), snd (fst r)))
+        (filter (C02BlocksIni.is_kind KEntity) es) = krecs out /\
+    map (fun e => C02BlocksIni.span_text txt (e_span e)) (filter (C02BlocksIni.is_kind KComment) es) =
+      ccoms out /\
+    map (fun e => C02BlocksIni.opt_text txt (e_val e)) (filter (C02BlocksIni.is_kind KSection) es) =
+      IniShape.csecs out /\
+    filter (C02BlocksIni.is_kind KJunk) es = [].
+Proof. exact IniReparse.merge_reparse_ini. Qed.
+
+(* [icentries_of bs] is the view of what the ini parser yields for the text of the blocks *)
+Theorem C15_parse_view_ini : forall bs, Forall C02BlocksIni.legal_iblock bs -> C02BlocksIni.iadjacent_ok bs ->
+  exists es, walk_ini (C02BlocksIni.ifile_text bs) = Ok es /\
+             map (centry_view (C02BlocksIni.ifile_text bs)) es = IniShape.icentries_of bs.
+Proof. exact IniView.icentries_view. Qed.
+
+(* newer  [s] / a=1 / b=2     older  [s] / a=0 / ;c / <blank> / z=3 / b=2 / [t] / q=1 *)
+Definition ie (k v : list nat) : C02BlocksIni.iblock := C02BlocksIni.IEntity [] (A k) (A v) true.
+Definition isec (n : list nat) : C02BlocksIni.iblock := C02BlocksIni.ISection (A n) true.
+Definition i_new : list C02BlocksIni.iblock := [isec [115]; ie [97] [49]; ie [98] [50]].
+Definition i_old : list C02BlocksIni.iblock :=
+  [isec [115]; ie [97] [48]; C02BlocksIni.IComment [(59%N, A [99])]; C02BlocksIni.IBlank (A [10]);
+   ie [122] [51]; ie [98] [50]; isec [116]; ie [113] [49]].
+
+Ltac iwsok_one :=
+  unfold IniReparse.iwsok;
+  first [ intros Hw; vm_compute in Hw; discriminate
+        | intros _; eexists; split; [vm_compute; reflexivity|]; split; [vm_compute; reflexivity|];
+          intros Hl; first [vm_compute; reflexivity | exfalso; vm_compute in Hl; lia] ].
+Ltac iversion_ok_tac :=
+  split; [repeat constructor|]; split; [repeat constructor|]; split; [split; nodup_tac|];
+  split; [vm_compute; intuition (try discriminate; try lia)|];
+  unfold IniShape.icentries_of; cbn [IniShape.icents PropsShape.cflush app];
+  repeat (apply Forall_cons; [iwsok_one|]); apply Forall_nil.
+
+Example C15_example_iversion_ok : Forall (IniReparse.iversion_ok 2) [i_new; i_old].
+Proof. constructor; [iversion_ok_tac|constructor; [iversion_ok_tac|constructor]]. Qed.
+
+(* the merged text  [s] / a=1 / ;c / <blank> / z=3 / b=2 / [t] / q=1  and its parse *)
+Example C15_example_reparse_ini :
+  exists txt es, merge_channels (s [102;46;105;110;105]) (map IniShape.icentries_of [i_new; i_old]) = Ok txt /\
+    txt = A [91;115;93;10; 97;61;49;10; 59;99;10;10; 122;61;51;10; 98;61;50;10; 91;116;93;10; 113;61;49;10] /\
+    walk_ini txt = Ok es /\
+    map (fun e => let r := C02BlocksIni.entity_record txt e in (fst (fst r), snd (fst r)))
+        (filter (C02BlocksIni.is_kind KEntity) es) =
+      [(A [97], A [49]); (A [122], A [51]); (A [98], A [50]); (A [113], A [49])] /\
+    map (fun e => C02BlocksIni.opt_text txt (e_val e)) (filter (C02BlocksIni.is_kind KSection) es) =
+      [A [115]; A [116]] /\
+    filter (C02BlocksIni.is_kind KJunk) es = [].
+Proof.
+  eexists. eexists. split; [vm_compute; reflexivity|]. split; [reflexivity|]. split; [vm_compute; reflexivity|].
+  split; [vm_compute; reflexivity|]. split; vm_compute; reflexivity.
+Qed.
+
+(* "every whitespace entry ends with a line break" is needed:
+   newer  a=1 / ;c / <blank> / b=2     older  a=1 / <blank> / <2 blanks>b=2
+   — both legal, junk-free, keys distinct, [nf 2], every whitespace entry starts with a line
+   break and the long ones have two; the older version's "\n\n  " is longer than the newer's
+   "\n", is kept in front of the comment, which then does not start a line: the merged text
+   a=1 / <blank> / <2 blanks>;c / <blank> / b=2  has a Junk entry *)
+Definition il_new : list C02BlocksIni.iblock :=
+  [ie [97] [49]; C02BlocksIni.IComment [(59%N, A [99])]; C02BlocksIni.IBlank (A [10]); ie [98] [50]].
+Definition il_old : list C02BlocksIni.iblock :=
+  [ie [97] [49]; C02BlocksIni.IBlank (A [10; 32; 32]); ie [98] [50]].
+Theorem C15_reparse_ini_line_end_refuted :
+  exists name txt es,
+    Forall (fun bs => Forall C02BlocksIni.legal_iblock bs /\ C02BlocksIni.iadjacent_ok bs /\
+                      ukeys (IniShape.icentries_of bs) /\ nf 2 (IniShape.icentries_of bs) /\
+                      Forall (wsok 2) (IniShape.icentries_of bs)) [il_new; il_old] /\
+    merge_channels name (map IniShape.icentries_of [il_new; il_old]) = Ok txt /\
+    txt = A [97;61;49;10;10;32;32; 59;99;10;10; 98;61;50;10] /\
+    walk_ini txt = Ok es /\ filter (C02BlocksIni.is_kind KJunk) es <> [].
+Proof.
+  exists (s [102;46;105;110;105]). eexists. eexists.
+  split.
+  { constructor; [|constructor; [|constructor]];
+      (split; [repeat constructor|]); (split; [vm_compute; reflexivity|]);
+      (split; [split; nodup_tac|]); (split; [vm_compute; intuition (try discriminate; try lia)|]);
+      unfold IniShape.icentries_of; cbn [IniShape.icents PropsShape.cflush app];
+      repeat (apply Forall_cons; [wsok_one|]); apply Forall_nil. }
+  split; [vm_compute; reflexivity|]. split; [reflexivity|]. split; [vm_compute; reflexivity|].
+  vm_compute. discriminate.
+Qed.
